@@ -1,4 +1,5 @@
 import RustCcModel.Proofs.CtlSimp
+import RustCcModel.Proofs.BytesInv
 /-! # C11 — introspection counters match reality
 
 How each helper moves the three counters (`allocated_bytes`, `executions_count`, the buffer size), and
@@ -74,5 +75,25 @@ theorem bytes_free (w : World) (x : Id) : (w.freeBox x).allocBytes = w.allocByte
 /-- `executions_count`: exactly one more per collection started. -/
 theorem execs_count (w : World) : (w.startCollect).execs = w.execs + 1 := by
   simp [startCollect, push, emit]
+
+
+/-! ## Every reachable world (`Proofs/InvReach.lean`, `Proofs/BytesInv.lean`) -/
+
+/-- **`allocated_bytes()` is exact**: in every reachable world the counter equals the total size of the boxes that
+exist (allocated and not yet released). -/
+theorem allocated_bytes_exact (c : Cfg) (nH nW nK : Nat) (w : World) (h : Reachable c nH nW nK w) :
+    w.allocBytes = liveBytes w :=
+  reachable_bytes c nH nW nK w h
+
+/-- **The buffer invariant holds in every reachable world**: `buffered_objects_count()` (the length of the buffer) counts
+distinct objects, exactly those marked as buffered, all of them existing boxes whose tracing counter is reset. -/
+theorem buffer_exact (c : Cfg) (nH nW nK : Nat) (w : World) (h : Reachable c nH nW nK w) :
+    BufOk w ∧ ∀ x ∈ w.pc, (w.heap x).boxLive = true ∧ (w.heap x).tc = 0 := by
+  have hi := (reachable_all c nH nW nK w h).inv
+  refine ⟨⟨hi.oi.pcNodup, hi.oi.mPc⟩, ?_⟩
+  intro x hx
+  refine ⟨?_, hi.oi.tc0 x hx⟩
+  apply OI.boxLive_of_mark hi.oi (x := x)
+  rw [(hi.oi.mPc x).2 hx]; simp
 
 end RustCc.C11
